@@ -54,15 +54,15 @@ struct submdspan_extents_builder {
             return submdspan_extents_builder<
                 K - 1,
                 Extents,
-                Extents::static_extent(Extents::rank() - K),
-                NewExtents...>::next(ext, slicesAndExtents..., ext.extent(Extents::rank() - K));
+                NewExtents...,
+                Extents::static_extent(Extents::rank() - K)>::next(ext, slicesAndExtents..., ext.extent(Extents::rank() - K));
         } else if constexpr (etl::is_convertible_v<Slice, etl::size_t>) {
             return submdspan_extents_builder<K - 1, Extents, NewExtents...>::next(ext, slicesAndExtents...);
         } else if constexpr (is_strided_slice<Slice>) {
             static_assert(etl::always_false<Slice>);
         } else {
             constexpr auto newStaticExt = submdspan_static_extent<K, Extents, Slice>();
-            return submdspan_extents_builder<K - 1, Extents, newStaticExt, NewExtents...>::next(
+            return submdspan_extents_builder<K - 1, Extents, NewExtents..., newStaticExt>::next(
                 ext,
                 slicesAndExtents...
             );
